@@ -491,7 +491,8 @@ def h_config_option(ctx):
     import src.linter_config.ignore as ign
     from click.testing import CliRunner
     from src.cli_main import cli
-    fmt = ctx.pick("file_format", ("yaml", "json", "yml"))
+    fmt = ctx.pick("file_format", ("yaml", "json", "yml", "json-tab-indented"))
+    tabbed, fmt = fmt.endswith("tab-indented"), fmt.split("-")[0]
     spelling = ctx.pick("spelling", ("hyphen", "underscore"))
     also_default = ctx.flag("project_also_has_thailint_yaml")
     d = Path(tempfile.mkdtemp(prefix="c05cfg-"))
@@ -504,19 +505,22 @@ def h_config_option(ctx):
         (d / "skipme" / "p.py").write_text(triggers.T["printy.py"][3])
         (d / "keep").mkdir()
         (d / "keep" / "p.py").write_text(triggers.T["printy.py"][3])
+        (d / "keep" / "dup1.py").write_text(triggers.DUP_FILES["dup1.py"])
+        (d / "keep" / "dup2.py").write_text(triggers.DUP_FILES["dup2.py"])
+        (d / "skipme" / "dup3.py").write_text(triggers.DUP_FILES["dup1.py"])
         mn = "magic-numbers" if spelling == "hyphen" else "magic_numbers"
-        body = {"nesting": {"max_nesting_depth": 9}, mn: {"enabled": False}, "ignore": ["skipme/"]}
+        body = {"nesting": {"max_nesting_depth": 9}, mn: {"enabled": False}, "ignore": ["skipme/"], "dry": {"enabled": True}}
         cfgdir = d / "conf"
         cfgdir.mkdir()
         f = cfgdir / ("custom." + fmt)
         if fmt == "json":
-            f.write_text(json.dumps(body))
+            f.write_text(json.dumps(body, indent="\t") if tabbed else json.dumps(body))
         else:
-            f.write_text("nesting:\n  max_nesting_depth: 9\n%s:\n  enabled: false\nignore:\n  - skipme/\n" % mn)
+            f.write_text("nesting:\n  max_nesting_depth: 9\n%s:\n  enabled: false\nignore:\n  - skipme/\ndry:\n  enabled: true\n" % mn)
         if also_default:
             (d / ".thailint.yaml").write_text("nesting:\n  max_nesting_depth: 2\n")
         outs = {}
-        for cmd in ("nesting", "magic-numbers", "improper-logging"):
+        for cmd in ("nesting", "magic-numbers", "improper-logging", "dry"):
             ign.clear_ignore_parser_cache()
             outs[cmd] = CliRunner().invoke(cli, ["--project-root", str(d), cmd, "--config", str(f), "--format", "json", str(d)])
         codes = {c: r.exit_code for c, r in outs.items()}
@@ -530,6 +534,66 @@ def h_config_option(ctx):
         ctx.require("enabled-false-honoured-in-config-option", not magic, spelling=spelling, fmt=fmt)
         prints = {Path(v["file_path"]).parent.name for v in docs["improper-logging"]["violations"]}
         ctx.require("top-level-ignore-list-honoured-in-config-option", prints == {"keep"}, got=sorted(prints))
+        dups = {Path(v["file_path"]).parent.name for v in docs["dry"]["violations"]}
+        ctx.require("top-level-ignore-list-honoured-by-the-dry-command-too", dups == {"keep"}, got=sorted(dups))
+    finally:
+        shutil.rmtree(d, True)
+        ign.clear_ignore_parser_cache()
+
+
+SECTION_CARRIERS = (".thailint.yaml", ".thailint.json", "pyproject.toml", "--config custom.yaml", "--config custom.json",
+                    "--config custom.json (tab-indented, BOM-free)")
+
+
+def h_carrier_sections(ctx):
+    """Every linter's section, in both spellings, written to every carrier and read back by the REAL loaders:
+    `enabled: false` silences exactly that linter whichever file carries it."""
+    import src.linter_config.ignore as ign
+    from src.api import Linter
+    section, prefix, groups = ctx.pick("linter", LINTERS)
+    names = groups[0]
+    carrier = ctx.pick("carrier", SECTION_CARRIERS)
+    spelled = section if ctx.pick("spelling", ("hyphen", "underscore")) == "hyphen" else section.replace("-", "_")
+    src0 = _proj() / "src"
+    d = Path(tempfile.mkdtemp(prefix="c05sec-"))
+    try:
+        (d / ".git").mkdir()
+        (d / "src").mkdir()
+        for n in names:
+            shutil.copy(src0 / n, d / "src" / n)
+        files = [d / "src" / n for n in names]
+
+        def run(body):
+            for f in (".thailint.yaml", ".thailint.json", "pyproject.toml", "custom.yaml", "custom.json"):
+                (d / f).unlink(missing_ok=True)
+            explicit = None
+            if body is not None:
+                if carrier.endswith(".yaml"):
+                    text = "".join("%s:\n%s" % (k, "".join("  %s: %s\n" % (a, json.dumps(b)) for a, b in v.items())) for k, v in body.items())
+                elif "tab-indented" in carrier:
+                    text = json.dumps(body, indent="\t")
+                elif carrier.endswith(".json"):
+                    text = json.dumps(body)
+                else:
+                    text = "".join("[tool.thailint.%s]\n%s" % (k, "".join("%s = %s\n" % (a, json.dumps(b)) for a, b in v.items())) for k, v in body.items())
+                fname = carrier.split()[1] if carrier.startswith("--config") else carrier
+                (d / fname).write_text(text)
+                explicit = str(d / fname) if carrier.startswith("--config") else None
+            ign.clear_ignore_parser_cache()
+            linter = Linter(config_file=explicit, project_root=str(d)) if explicit else Linter(project_root=str(d))
+            out = []
+            for f in files:
+                out += linter.lint(f) if len(files) == 1 else []
+            if len(files) > 1:
+                out = linter.lint(d / "src")
+            return _own(out, prefix)
+
+        base = run({"dry": {"enabled": True}} if section == "dry" else None)
+        ctx.require("trigger-fires-without-the-section", len(base) > 0, linter=section)
+        got = run({spelled: {"enabled": False}})
+        ctx.cover("ran")
+        ctx.require("enabled-false-honoured-in-every-carrier-and-spelling", not got, linter=section, carrier=carrier,
+                    spelled=spelled, got=[v.rule_id for v in got][:3])
     finally:
         shutil.rmtree(d, True)
         ign.clear_ignore_parser_cache()
@@ -579,6 +643,12 @@ def obligations(tier):
                       "linter_config.ignore._load_repo_ignores/_parse_config_file", "cli entry: setup_base_orchestrator / handle_linting_error"],
            bounds="forked only (the YAML/JSON/TOML parsers are C/third-party code, nothing is symbolic here): presence of each of the 3 carriers (8 subsets) x key spelling x which present carrier is malformed x {library, CLI}",
            timeout=900, workers=14, must_cover=("effective-yaml", "effective-json", "effective-pyproject", "effective-None", "malformed")),
+        Ob(name="K3c-every-section-through-every-carrier", engine="pathex", harness=h_carrier_sections,
+           functions=["Linter.__init__/lint", "LinterConfigLoader.load", "config_parser.parse_config_file/parse_yaml/parse_json/_normalize_config_keys",
+                      "pyproject loader", "every rule's _load_config / load_linter_config"],
+           bounds="forked: %d linter sections x %d carriers (auto-discovered yaml/json/pyproject, explicit yaml/json file) x 2 spellings; "
+                  "setting: enabled=false" % (len(LINTERS), len(SECTION_CARRIERS)),
+           timeout=600, workers=12, must_cover=("ran",)),
         Ob(name="K3b-config-option-carrier", engine="pathex", harness=h_config_option,
            functions=["cli.utils.setup_base_orchestrator/load_config_file", "LinterConfigLoader.load", "linter commands with --config"],
            bounds="forked (nothing symbolic): --config file format (yaml, yml, json) x key spelling x presence of a project .thailint.yaml",
